@@ -502,7 +502,12 @@ impl Machine {
             new_vm.global_states.rawdata = self.global_states.rawdata.clone();
         }
         new_vm.link_functions();
+        // The global initialiser of the new program runs on a state storage of
+        // its own, as it does on a fresh start, not on the state carried over
+        // for `dsp` (a stateful initialiser would otherwise overwrite it).
+        let carried_over = std::mem::take(&mut new_vm.global_states);
         new_vm.execute_main();
+        new_vm.global_states = carried_over;
         new_vm
     }
     pub fn clear_stack(&mut self) {
@@ -1781,6 +1786,17 @@ impl Machine {
     }
 
     pub fn execute_main(&mut self) -> ReturnCode {
+        // The global initialiser may itself call stateful functions
+        // (`fn counter(){ self+1.0 }  let x = counter()`): make sure the
+        // state storage covers what it uses.
+        let main_state_size = self
+            .prog
+            .global_fn_table
+            .first()
+            .map_or(0, |(_, f)| f.state_skeleton.total_size() as usize);
+        if self.global_states.rawdata.len() < main_state_size {
+            self.global_states.resize(main_state_size);
+        }
         // 0 is always base pointer to the main function
         self.base_pointer += 1;
         self.execute(0, None)
